@@ -88,6 +88,26 @@ def replay_chunk(cases: List[Dict[str, Any]]):
             out["viol"].append((key, bad, {"case": case, "nodes": nodes}))
         elif case["status"] == "fail" and obs["exc_class"] != case["failClass"]:
             out["drift"].append(f"{prog_key(case['prog'])}: failure class spec={case['failClass']} code={obs['exc_class']}")
+        # HISTORY: the same payload again through ONE Pipeline object that has already served it once -- in particular
+        # after a run that raised: the second call must behave exactly like the first (same result, or the same node raising)
+        hh = zlib.crc32(repr(case["prog"]).encode() + repr(case["ictx"]).encode())
+        if not bad and ((case["status"] == "fail" and hh % 5 == 0) or hh % 29 == 0):
+            import copy as _copy
+            from semantiva.pipeline import Pipeline
+            from ..seams import make_recording_orchestrator
+            try:
+                pobj = Pipeline(_copy.deepcopy(nodes))
+            except Exception:
+                continue
+            orch = make_recording_orchestrator()
+            run_nodes(nodes, g_data(case["idata"]), g_ctx(case["ictx"]), pipeline=pobj, orchestrator=orch)
+            again = run_nodes(nodes, g_data(case["idata"]), g_ctx(case["ictx"]), pipeline=pobj, orchestrator=orch)
+            out["reused"] = out.get("reused", 0) + 1
+            bad2 = compare_case(case, again)
+            if bad2:
+                key = f"second-call-on-one-pipeline:{'after-failure' if case['status'] == 'fail' else 'after-success'}"
+                out["viol"].append((key, f"[{prog_key(case['prog'])}] the same Pipeline object, called a second time with the same payload: {bad2}",
+                                    {"case": case, "nodes": nodes}))
     return out
 
 
@@ -103,6 +123,7 @@ def _replay_emitted(run: core.Run, module: str, cfg: str, *, exhaustive: bool, s
             seen_rej += r["rejected"]
             run.extra["replayed_via_yaml_loader"] = run.extra.get("replayed_via_yaml_loader", 0) + r.get("via_yaml", 0)
             run.nontrivial += r["nontrivial"]
+            run.extra["second_calls_on_one_pipeline"] = run.extra.get("second_calls_on_one_pipeline", 0) + r.get("reused", 0)
             for key, what, rep in r["viol"]:
                 run.violation(key, what, rep)
             for d in r["drift"]:
